@@ -118,6 +118,10 @@ MutationsFor(S, id0, full) ==
       \cup { Mutated(id0 \o "st1-" \o ToString(v), S, S, 1, SetByte(osr, 17, v), "error", "osr-status", FALSE) : v \in stat }
       \cup { Mutated(id0 \o "st2-" \o ToString(v), S, S, 2, SetByte(r2, 17, v), "error", "r2-status", FALSE) : v \in stat }
       \cup { Mutated(id0 \o "st3-" \o ToString(v), S, S, 3, SetByte(r4, 17, v), "error", "r4-status", FALSE) : v \in stat }
+      \* the length byte of each algorithm payload of the Open Session Response (8 for every conforming BMC; 0 = wildcard
+      \* in requests): whatever the library makes of another value, it is an answer, not a crash
+      \cup { MutatedH(id0 \o "alen" \o ToString(off) \o "-" \o ToString(v), S, S, 1, SetByte(osr, 16 + off, v), "any", "osr-alg-length", FALSE, TRUE)
+             : off \in {15, 23, 31}, v \in {0, 7, 9, 16, 36, 255} }
       \* tags: the library's tags are its own choice, so "another tag" = observed tag + delta
       \cup { Mutated(id0 \o "tg1-" \o ToString(v), S, S, 1, AddByte(osr, 16, v), "error", "osr-tag", FALSE) : v \in stat }
       \cup { Mutated(id0 \o "tg2-" \o ToString(v), S, S, 2, AddByte(r2, 16, v), "error", "r2-tag", FALSE) : v \in stat }
@@ -230,7 +234,7 @@ RetrySet ==
 
 \* long command histories on one session per suite (IV freshness, sequence numbers): lengths cycle through 0..40
 LongSet ==
-  LET n == IF Full THEN 400 ELSE 60 IN
+  LET n == IF Full THEN 400 ELSE 80 IN          \* (more commands than a 6-bit message sequence number has values)
   { Honest("long-" \o ToString(s[1]) \o "-" \o ToString(s[2]), Scn(9900 + s[1] * 10 + s[2], s[1], s[2], 1, 7, 11, (s[1] % 2) = 0, 4, TRUE),
            [j \in 1..n |-> (j * 7 + Seed) % 41]) : s \in SupportedSuites }
 
